@@ -251,7 +251,7 @@ def scenarios(tier, seed):
                 continue
             S.append(Scenario("rebin2/e%d+%d/b%d-to-b%d/reads-%s" % (ne1, ne2, nb, nb2, "+".join(reads)), sc_rebin2, family="rebin2", params=dict(ne1=ne1, ne2=ne2, nb=nb, nb2=nb2, reads=reads)))
     for lo, hi, nb in [(1.0, 2.0, 10), (0.0, 1.0, 10), (0.0, 0.7, 7), (-1.0, 2.0, 9), (0.1, 0.4, 3), (1.0, 2.0, 3), (0.0, 1.1, 11)]:
-        S.append(Scenario("fp-edges/%g-%g-%d" % (lo, hi, nb), sc_fp_edges, family="fp-edges", params=dict(lo=lo, hi=hi, nb=nb)))
+        S.append(Scenario("fp-edges/%g-%g-%d" % (lo, hi, nb), sc_fp_edges, family="fp-edges", params=dict(lo=lo, hi=hi, nb=nb), concrete_only=True))
     S.append(Scenario("twin/closed-upper", sc_twin_closed_upper, twin=True))
     S.append(Scenario("twin/dropped-entry", sc_twin_dropped_entry, twin=True))
     return S
